@@ -102,7 +102,7 @@ func Run(r *core.Report, env *build.Env) {
 		maxA, widths = 4, []int{1, 2, 3, 4}
 	}
 	r.Bounds["list_length"] = fmt.Sprintf("0..%d elements (second list 0..2), every element an unconstrained 64-bit number", maxA)
-	r.Bounds["text_length"] = fmt.Sprintf("0..%d characters (second text 1..2), every character symbolic within one UTF-8 width class per cell; width classes %v", maxText, widths)
+	r.Bounds["text_length"] = fmt.Sprintf("0..%d characters (second text 1..2), every character symbolic within one UTF-8 width class per cell; width classes %v (trim and split functions: classes 1-2 only)", maxText, widths)
 	r.Bounds["scalars"] = "indices and counts unconstrained 64-bit unless the documented domain restricts them; Polster_* up to 2 added characters and a final length above -2^62, Auf-/Absteigende_Zahlen up to 4 numbers within +-2^62 (differences of numbers near the 64-bit limits wrap around: a matter of the language's arithmetic, C01)"
 	r.Assumptions = append(r.Assumptions,
 		"documented domain = valid 1-based indices 1..len (ranges 1 <= start <= end <= len), equal lengths for element-wise functions, non-empty texts for sub-text search; outcomes outside it are not judged",
@@ -159,7 +159,12 @@ func Run(r *core.Report, env *build.Env) {
 		}
 		ws := []int{0}
 		if f.fam == "text" {
-			ws = widths
+			ws = nil
+			for _, w := range widths {
+				if f.maxW == 0 || w <= f.maxW {
+					ws = append(ws, w)
+				}
+			}
 		}
 		hasB, hasTL := false, false
 		for _, p := range f.params {
